@@ -751,6 +751,51 @@ func tdAdd(c *Ctx, rule, path, short string) {
 	if incs != 1 {
 		bad = append(bad, fmt.Sprintf("p.len is advanced %d times per stored record, want once", incs))
 	}
+	// the record is kept in this page only while the page is not full: the test that admits it must imply len < max
+	// (len == max refused suffices, because len only grows by one from 0; len > max refused does not)
+	admits := false
+	var lenMax []string
+	for d := loop.iff.Block(); d != nil; d = d.Idom() {
+		id := d.Idom()
+		if id == nil {
+			break
+		}
+		iff, ok := lastInstr(id).(*ssa.If)
+		if !ok || id.Succs[0] == id.Succs[1] {
+			continue
+		}
+		bo, ok := iff.Cond.(*ssa.BinOp)
+		if !ok {
+			continue
+		}
+		fx, fy := recvFieldLoad(fn, stripConvert(bo.X)), recvFieldLoad(fn, stripConvert(bo.Y))
+		if fx == nil || fy == nil {
+			continue
+		}
+		op := bo.Op
+		if fx.Name() == "max" && fy.Name() == "len" {
+			op = map[token.Token]token.Token{token.LSS: token.GTR, token.GTR: token.LSS, token.LEQ: token.GEQ, token.GEQ: token.LEQ, token.EQL: token.EQL, token.NEQ: token.NEQ}[op]
+		} else if !(fx.Name() == "len" && fy.Name() == "max") {
+			continue
+		}
+		for si, truth := range []bool{true, false} {
+			sb := id.Succs[si]
+			if len(sb.Preds) != 1 || !(sb == loop.iff.Block() || sb.Dominates(loop.iff.Block())) {
+				continue
+			}
+			eff := op
+			if !truth {
+				eff = map[token.Token]token.Token{token.LSS: token.GEQ, token.LEQ: token.GTR, token.GTR: token.LEQ, token.GEQ: token.LSS, token.EQL: token.NEQ, token.NEQ: token.EQL}[op]
+			}
+			lenMax = append(lenMax, "len "+eff.String()+" max")
+			if eff == token.LSS || eff == token.NEQ {
+				admits = true
+			}
+		}
+	}
+	if !admits {
+		bad = append(bad, fmt.Sprintf("a record is kept in this page under %v, which does not keep the page at `max` records (want len < max, or len != max): a page then holds more records than the configured page size", lenMax))
+	}
 	if len(bad) > 0 {
 		r.bad(rule, key, pos, strings.Join(bad, "; "))
 	} else {
